@@ -90,7 +90,8 @@ REDUCED = dict(counts=("2", "0.5"), gcounts=("2", "0.5"), leads=("2",), dens=(("
 # "chain": nothing but counts and parentheses, for deep count chains at a higher deviation bound
 CHAIN = dict(syms=("H", "O"), counts=("2", "0.5"), gcounts=("2", "0.5"), leads=("2",), dens=(),
              seps=((" ", 0), ("", 0)), max_isos=0, max_ions=0)
-MENUS = dict(full={}, full3=dict(syms=("H", "Co", "D")), reduced=REDUCED, chain=CHAIN, reduced3=dict(REDUCED, syms=("H", "Co", "D")))
+MENUS = dict(full={}, full3=dict(syms=("H", "Co", "D")), reduced=REDUCED, chain=CHAIN,
+             reduced3=dict(REDUCED, syms=("H", "Co", "D")))
 
 
 # ------------------------------------------------------------------------------------ environment
